@@ -109,9 +109,9 @@ def gen_body(rng, kind='body'):
                 t = layout[0][2]
                 data = data[:t] + b'XY' + data[t + 2:]
             expect = 'reject'
-        elif rng.random() < 0.06 and ctype != 'json':      # (a cut JSON text is C12's business: 400)
-            cl = rng.randrange(0, size + 3)        # both headers present: correspondence only
-            expect = 'any'
+        elif rng.random() < 0.12:
+            # both headers present: the chunked coding wins for the body (C05) and, after fix F37, for the text
+            cl = rng.choice([0, 1, max(size - 1, 0), size, size + 3, buf, buf + 1, 10 * buf])
     else:
         data = payload
         r = rng.random()
@@ -281,6 +281,15 @@ def corpus():
     for via in ('iter_items', 'wsgi'):
         out.append(dict(kind='budget', parts=big_file, buf=200, via=via))
         out.append(dict(kind='budget', parts=big_file, buf=150, via=via))
+    # fix F37: a chunked form with a Content-Length next to it — the text is the whole decoded body (was cut to
+    # CL bytes), and 413 is decided on the decoded size (was decided on the header)
+    for via in ('gbs', 'forms'):
+        for cl_ in (0, 3, 8, 20):
+            txt = (b'k=' + b'v' * 8)[:8]
+            out.append(_body(b'8\r\n' + txt + b'\r\n0\r\n\r\n', cl_, 8, None, chunked=True, via=via, kind='text',
+                             ctype='urlencoded', payload_len=8, layout=[[0, 3, 11]]))
+            out.append(_body(b'9\r\n' + txt + b'v\r\n0\r\n\r\n', cl_, 8, None, chunked=True, via=via, kind='text',
+                             ctype='urlencoded', payload_len=9, layout=[[0, 3, 12]]))
     # audit round: the Request object used directly (with / without errors_map), earlier reads and copies, JSON through
     # forms, fragmented multipart bodies with repeated names, the default configuration at its 100 KiB threshold
     for rconf in ('default_config', 'raw_dict'):
